@@ -79,6 +79,7 @@ def _c03_sess(op, n, fn, target, tok, tiers):
               desc='%s: one inductive step from an arbitrary session table / login state satisfying INV (PKCS#11 login rules); INV preserved, per-call contract, failing call changes nothing, other token untouched%s' % (fn, '' if target is None else ' [call addresses table entry %d on token %d or an unknown handle]' % (target, tok)),
               bounds='<= 4 session-table entries, 2 tokens, PIN <= 4 bytes; HandleManager / SessionObjectStore notifications observed as calls', timeout=600, mem=14)
 OBLIGATIONS['C03'] = [_c03_sess(0, 'open', 'C_OpenSession', None, None, ('quick', 'thorough')),
+                      _c03_sess(2, 'closeall', 'C_CloseAllSessions', None, None, ('quick', 'thorough')),   # (budget raised below)
                       _c03_sess(5, 'sameclass', 'C_GetSessionInfo on two sessions of one token', None, None, ('quick', 'thorough')),
                       _c03_sess(6, 'inittoken_gate', 'C_InitToken session gate', None, None, ('quick', 'thorough'))]
 for (op, n, fn) in [(1, 'close', 'C_CloseSession'), (4, 'logout', 'C_Logout')]:
@@ -86,6 +87,8 @@ for (op, n, fn) in [(1, 'close', 'C_CloseSession'), (4, 'logout', 'C_Logout')]:
         for tok in range(2):
             OBLIGATIONS['C03'].append(_c03_sess(op, n, fn, target, tok, ('quick', 'thorough') if (target, tok) in ((1, 0), (2, 1)) else ('thorough',)))
 SDM_LOGIN_STUBS = {'_ZN17SecureDataManager5loginERK10ByteStringS2_': 'stub_sdm_login', '_ZN17SecureDataManager14reAuthenticateERK10ByteStringS2_': 'stub_sdm_reauth'}
+for _o in OBLIGATIONS['C03']:
+    if _o.name == 'sess_closeall': _o.mem = 30; _o.timeout = 1200
 OBLIGATIONS['C03'] += [
     Ob('tok_' + n, 'C03/token_login.cpp', ['slot_mgr/Token.cpp', 'data_mgr/SecureDataManager.cpp', 'data_mgr/ByteString.cpp'], defines={'OP': op, 'BS_CAP': 4}, unwind=5,
        stubs=SDM_LOGIN_STUBS, caps='C03/caps.h',
@@ -131,6 +134,12 @@ OBLIGATIONS['C05'] = [
        bounds='%d entries, kinds (%d,%d) [0 bool,1 ulong,2 bytes,3 mechanism set], byte strings of %d bytes; keys and values symbolic' % (cnt, k0, k1, bl))
     for (name, cnt, k0, k1, bl) in (('empty', 0, 0, 0, 0), ('bool', 1, 0, 0, 0), ('ulong', 1, 1, 0, 0), ('bytes0', 1, 2, 0, 0), ('bytes3', 1, 2, 0, 3), ('mech', 1, 3, 0, 0), ('ulong_bytes2', 2, 1, 2, 2), ('bytes0_bool', 2, 2, 0, 0), ('bool_mech', 2, 0, 3, 0), ('bytes4_bytes4', 2, 2, 2, 4))
 ]
+OBLIGATIONS['C05'] += [
+    Ob('decode_any_%s_n%d' % (('bytestring', 'mechset', 'attrmap')[w], n), 'C05/file_codec.cpp', FILE_REAL, defines={'OP': 3, 'BS_CAP': 16, 'FCAP': 32, 'FILE_BYTES': n, 'WHICH': w}, unwind=24, caps='C05/caps.h', throw_assert=True,
+       tiers=('quick', 'thorough') if (w, n) in ((0, 12), (1, 16), (2, 17)) else ('thorough',), unwind_rules=[(r'^harness\.', 40)],
+       desc='File::%s on a file of %d ARBITRARY bytes: no exception (it would reach exit()), no out-of-range access, a value is only returned when the bytes were all there' % (('readByteString', 'readMechanismTypeSet', 'readAttributeMap')[w], n),
+       bounds='file of exactly %d arbitrary bytes' % n)
+    for w in (0, 1, 2) for n in (0, 5, 8, 12, 16, 17, 25) if not (w == 2 and n == 25)]   # (attribute map on 25 bytes: no verdict in 1500 s)
 META['C05'] = dict(outside='SQLite backend; files larger than the bounds; directory index; real file-system semantics beyond the model of harness/common/vio_model.h', assumptions=['model file system / stdio of harness/common/vio_model.h'])
 
 # ----------------------------------------------------------------------------- C02 / C08 / C06 (attribute policy engine)
@@ -212,7 +221,7 @@ OBLIGATIONS['C09'] = [
 ] + [
     Ob('sessobj_prefix', 'C09/sessobj_prefix.cpp', ATTR_REAL + ['P11Objects.cpp', 'object_store/SessionObject.cpp'], defines={'P11MAP_CAP': 4, 'BS_CAP': 6, 'MODEL_OUT_MAX': 4, 'VSTL_CAP': 3}, unwind=5, stubs=TAG_STUBS, caps='C02/caps.h',
        unwind_rules=[(r'^harness', 20), (r'ByteString|ir_mem|memcmp|model_fill|havoc|token_decrypt|token_encrypt', 8)],
-       desc='rejected template (CKA_LABEL, unknown type) on a real SessionObject through the real saveTemplate: the label must keep its old value', bounds='one session object with at most the label attribute, 1-byte values'),
+       desc='rejected template (CKA_LABEL, unknown type) on a real SessionObject through the real saveTemplate: the label must keep its old value', bounds='one session object with at most the label attribute, 1-byte values', timeout=900, mem=28),
     Ob('create_object', 'C09/create_entry.cpp', ENTRY_REAL_NOP11, defines={}, unwind=18, stubs=STORE_STUBS, caps='common/entry_caps.h', unwind_rules=[(r'ir_memcpy', 100)],
        desc='C_CreateObject: a failed call leaves no handle and destroys the half-built object; private objects only for the logged-in user, token objects only through RW sessions; imported keys get LOCAL/ALWAYS_SENSITIVE/NEVER_EXTRACTABLE false',
        bounds='template of 1..3 entries (CKA_CLASS in {DATA, SECRET_KEY/AES}); creation / init / saveTemplate are sinks with symbolic results')]
@@ -235,7 +244,8 @@ OBLIGATIONS['C04'] = [
 OBLIGATIONS['C14'] = [
     _pin(3, 'reinit', 'createToken (initialised token)', 'OK only with the correct SO PIN; resets the token, keeps the SO PIN, removes the user PIN on disk AND in memory, nobody logged in; wrong PIN => no reset, nothing changed'),
     _pin(4, 'freshinit', 'createToken (free slot)', 'new token gets the given SO PIN and no user PIN; failure leaves no half-initialised token'),
-    [o for o in OBLIGATIONS['C03'] if o.name == 'sess_inittoken_gate'][0]]
+    [o for o in OBLIGATIONS['C03'] if o.name == 'sess_inittoken_gate'][0]] + \
+    [o for o in OBLIGATIONS['C03'] if o.name in ('sess_closeall', 'sess_close_s1_t0', 'sess_close_s2_t1', 'sess_logout_s1_t0', 'sess_logout_s2_t1', 'sess_open')]   # isolation: a call on one token leaves the other token's sessions and login state untouched
 META['C04'] = dict(outside='the cryptography (that different PINs give different PBE keys; the 2^-24 magic collision), PIN lengths above 2 bytes at the Token level (byte exactness of the caller PIN for <= 16 bytes is obligation clogin), persistence across processes (blob bytes are handed to the token object; their file round trip is C05)', assumptions=['ideal PIN model: pbeEncryptKey(pin) is injective in the PIN, login accepts iff the blob wraps exactly this PIN'])
 META['C14'] = dict(outside='softhsm2-util, directory scanning at start-up, SQLite, slot-id derivation from the serial', assumptions=['ideal PIN model', 'C_InitToken is only reached without sessions (obligation sess_inittoken_gate), hence with nobody logged in (C03 INV)'])
 
@@ -246,7 +256,8 @@ def _c17(ob):
     o.name = ob.name + '_safe'; o.throw_assert = True; o.defines = dict(ob.defines)
     o.desc = ob.desc + ' - re-run with every C++ exception (it would reach main.cpp\'s catch-all and exit()) and every out-of-range container index as an assertion failure'
     return o
-_C17_QUICK = ('flow_encrypt', 'flow_decrypt', 'flow_sign', 'flow_verify', 'flow_decryptfinal', 'flow_findobjects', 'flow_findobjectsfinal', 'init_encrypt', 'obj_getattr', 'obj_copy')
+_C17_QUICK = ('flow_encrypt', 'flow_decrypt', 'flow_sign', 'flow_verify', 'flow_decryptfinal', 'flow_findobjects', 'flow_findobjectsfinal', 'init_encrypt', 'obj_getattr', 'obj_copy',
+              'wrap_key', 'derive_key_wrapper', 'genkey_wrapper', 'genpair_wrapper', 'cinitpin', 'csetpin', 'gen_Generic')
 def _c17t(o):
     x = _c17(o); x.tiers = ('quick', 'thorough') if o.name in _C17_QUICK else ('thorough',)
     if o.name == 'flow_findobjects': x.checks = True   # pointer checks: a NULL find-operation object must not be dereferenced
@@ -256,6 +267,8 @@ OBLIGATIONS['C17'] = [_c17t(o) for o in OBLIGATIONS['C12'] + C01_OBJ + [x for x 
 META['C17'] = dict(outside='call sequences (each entry point is run once from an arbitrary state satisfying the stated session invariants); entry points not harnessed; OpenSSL internals; caller buffers smaller than announced; files larger than the stated bounds; pointer-provenance undefined behaviour that no sanitizer confirms',
                    assumptions=['a request to grow a byte string / container to >= 2^31 elements is what makes the real std::vector throw (length_error / bad_alloc); smaller growth beyond the model capacity is only outside the bound'])
 
+# C11 also claims the privacy tag of the handle C_CopyObject registers (it decides whether the handle dies at logout)
+OBLIGATIONS['C11'] = OBLIGATIONS['C11'] + [o for o in C01_OBJ if o.name in ('obj_copy', 'obj_destroy')]
 # C01 also claims the search filter (private objects invisible unless the user is logged in)
 OBLIGATIONS['C01'] = OBLIGATIONS['C01'] + [o for o in OBLIGATIONS['C19'] if o.name == 'find_empty'] + [o for o in OBLIGATIONS['C09'] if o.name == 'create_object'] + [o for o in OBLIGATIONS['C11'] if o.name == 'hm_tokenLoggedOut']
 
